@@ -24,16 +24,18 @@ func guarded(f func() error) (err error) {
 	return f()
 }
 
+// firstLine normalises an error / panic text: no stack trace, no node-path trailer, one line.
 func firstLine(s string) string {
 	if i := strings.Index(s, "\nstack:"); i >= 0 {
 		s = s[:i]
 	}
-	if i := strings.Index(s, "\n"); i >= 0 {
+	if i := strings.Index(s, "\n------------------------"); i >= 0 {
 		s = s[:i]
 	}
+	s = strings.Join(strings.Fields(s), " ")
 	s = strings.TrimRight(s, ", ")
-	if len(s) > 300 {
-		s = s[:300]
+	if len(s) > 400 {
+		s = s[:400]
 	}
 	return s
 }
